@@ -207,6 +207,9 @@ impl FixedOffset {
     pub fn from_utc_datetime(&self, n: &NaiveDT) -> (r: DateTimeL) ensures instant(r) == n.wall() { unimplemented!() }
     #[verifier::external_body]
     pub fn from_local_datetime(&self, n: &NaiveDT) -> (r: LocalResultDt) ensures instant(r.val()) == local_instant(*self, n.wall()) { unimplemented!() }
+    // assumed (chrono TimeZone): calendar fields given to a zone are read as that zone's wall clock
+    #[verifier::external_body]
+    pub fn with_ymd_and_hms(&self, y: i32, mo: u32, d: u32, h: u32, mi: u32, s: u32) -> (r: LocalResultDt) ensures instant(r.val()) == local_instant(*self, ymdhms_instant(y, mo, d, h, mi, s)) { unimplemented!() }
 }
 
 //@cut fn path=src/bin/s4.rs name=string_to_rel_offset_datetime ret=r
